@@ -117,9 +117,16 @@ def evaluate(case):
     skip = ()
     if kind == "heat_mode":
         skip = ()   # hydraulic columns come from the identical sol_vec
+    # The solver stops when the last Newton STEP is below the tolerance. Where it converges quadratically that bounds the
+    # distance to the solution; nets with lagged couplings (compressor / pump lifts, stagnant branches) converge linearly
+    # over 50-100 iterations and two converged runs were seen 1e-7 bar / 1e-5 relative in flow apart while both satisfy the
+    # governing equations to 1e-7 bar (C02 / C03 oracles). "Beyond the solver tolerance" is therefore judged with a wider
+    # band for such slowly converging cases.
+    slow = any((it or 0) > 40 for _, _, _, it in ok)
+    tolkw = dict(ptol=1e-6, ttol=1e-5, mrel=1e-6, drel=1e-5, mabs=1e-8, mfloor=5e-9) if not slow else \
+        dict(ptol=1e-5, ttol=1e-4, mrel=1e-4, drel=1e-3, mabs=1e-6, mfloor=5e-8)
     for (na, a, _, _), (nb, b, _, _) in zip(ok[:1] * (len(ok) - 1), ok[1:]):
-        diffs = compare_nets(a, b, ptol=1e-6, ttol=1e-5, mrel=1e-6, drel=1e-5, mabs=1e-8, mfloor=5e-9,
-                             skip_cols=skip)   # branches without flow converge only linearly: |mdot| <= ~1.5e-9 each
+        diffs = compare_nets(a, b, skip_cols=skip, **tolkw)   # branches without flow converge only linearly: |mdot| <= ~1.5e-9 each
         for d in diffs[:2]:
             f.append(Finding("agreement", "C08.agreement.%s.%s.%s" % (kind, d["table"], d["column"]), dict(d, runs=[na, nb])))
     if f:
@@ -137,7 +144,7 @@ def evaluate(case):
     far = any(abs(a - 1.0) > 0.2 for a in case["p_factors"]) or (vary_t and any(abs(b) > 10 for b in case["t_shifts"]))
     flowing = any((ok[0][1]["res_" + t].mdot_from_kg_per_s.abs() > 1e-6).any() for t in ("pipe",) if t in ok[0][1] and len(ok[0][1][t]))
     its = {r[0]: r[3] for r in ok}
-    labels = {"kind:" + kind, "n_ok:%d" % len(ok)}
+    labels = {"kind:" + kind, "n_ok:%d" % len(ok)} | ({"slow_linear_convergence"} if slow else set())
     if "constant" in its and "automatic" in its and its["constant"] != its["automatic"]:
         labels.add("damping_different_iterations")
     if any(r[2] != "ok" for r in runs):
